@@ -23,6 +23,7 @@
   NOT proved (see DESIGN.md); it is checked exhaustively to a length bound.
 -/
 import GdModel.Token.Spec
+import GdModel.Token.Plain
 
 namespace GdModel.Props.C08
 open GdModel.Token
@@ -448,5 +449,19 @@ theorem no_nul_in_tokens (v6 : Bool) (want : Nat) (input : List Nat) (h : NoNul 
   · rcases List.mem_cons.mp (List.mem_reverse.mp ht) with rfl | h'
     · exact noNul_reverse hs2.1
     · exact hs2.2 t h'
+
+/-! ### Standards Versions <= 5: impl = spec for every line (proved, not sampled) -/
+
+/-- In the syntax of Standards Versions 5 and earlier (backslash and quotation mark
+    are ordinary bytes) the C-shaped tokeniser and the reader written from
+    dirfile-format(5) agree on EVERY byte string: same tokens, no error.  (For
+    Versions >= 6 the equality is checked exhaustively up to the length bound and
+    on random strings by the correspondence run; see ASSUMPTIONS.) -/
+theorem tokenise_impl_eq_spec_v5 (input : List Nat) (want : Nat) (hw : input.length < want) :
+    (GdModel.Token.Impl.tokenise false want input).tokens = (GdModel.Token.Spec.tokenise false input).tokens ∧
+    (GdModel.Token.Impl.tokenise false want input).err = none ∧ (GdModel.Token.Spec.tokenise false input).err = none :=
+  GdModel.Token.Plain.impl_eq_spec_v5 input want hw
+
+example : (GdModel.Token.Impl.tokenise false 9 [97, 92, 32, 34, 98, 35, 99]).tokens = [[97, 92], [34, 98]] := by decide
 
 end GdModel.Props.C08
